@@ -54,9 +54,19 @@ def c02_case(rng, op, i, tier):
     p.tag('rank%d' % len(shape))
     if op in UNARY:
         vals = pos(n) if op == 'log' else ([rng.uniform(-1.2, 1.2) for _ in range(n)] if op == 'tan' else gen(n))
+        if op in ('tanh', 'sinh', 'cosh', 'exp') and i % 4 == 3:
+            # saturated / large arguments: the derivative spans many orders of magnitude (1/cosh^2 at 18 is 2e-15 of its value at 0)
+            vals = [rng.choice([-1.0, 1.0]) * rng.uniform(4.0, 18.0) for _ in range(n)]
+            p.tag('large-arguments')
         x = p.tensor(shape, vals, tracked=True)
         y = p.bind('%s %s' % (op, x))
-        finish(p, y, shape, rng, [x], skip=x)
+        if op == 'tanh' and 'large-arguments' in p.tags:
+            # upstream weights of the size of 1 / f'(x): the delivered gradient is of order 1 wherever f' is tiny, so a rule that
+            # loses the small derivative to cancellation is seen through the comparison's absolute floor
+            g = p.tensor(shape, [math.cosh(v) ** 2 * rng.choice([0.5, 1.0, 2.0]) for v in vals])
+            p.add('bp %s' % p.bind('mul %s %s' % (y, g))); p.add('obs %s' % x)
+        else:
+            finish(p, y, shape, rng, [x], skip=x)
     elif op == 'scale':
         x = p.tensor(shape, gen(n), tracked=True)
         y = p.bind('scale %s %s' % (x, f2b(rng.choice([0.0, -1.0, 2.5, 0.125]))))
@@ -688,4 +698,36 @@ def exhaustive_backward(tier):
                         b = p.tensor(sb, vals(prod(sb), 0.17), tracked=True)
                         return (p.bind('patch %s %s %s' % (a, ranges(rl), b)), sa, [a, b])
                     case('xb_p%d_%d_%s' % (ai, bi, '_'.join(map(str, offs))), build)
+    return progs
+
+
+def deep_shared(tier):
+    """seed-independent programs: deep chains in which every step reaches the previous tensor over two or more paths (x + x,
+    h + tanh(h), h * h, a skip connection through Concat / Slice) — the number of PATHS from the root doubles per level while
+    the number of tensors grows linearly; BackPropagate applies every backward rule once per tensor, so these finish at once
+    (the harness puts a wall-clock budget on every command; `timeout` is a status the model never produces)"""
+    progs = []
+    depths = [24, 40, 64] if tier == 'quick' else [24, 40, 64, 96, 128]
+    for kind in ('add-self', 'add-tanh', 'mul-self', 'sub-scale', 'concat-skip'):
+        for depth in depths:
+            p = Prog('deep_%s_%d' % (kind.replace('-', '_'), depth))
+            x0 = p.tensor([2], [0.75, -0.5], tracked=True)
+            h = p.bind('scale %s %s' % (x0, f2b(1.0)))
+            for lvl in range(depth):
+                if kind == 'add-self':
+                    h = p.bind('scale %s %s' % (p.bind('add %s %s' % (h, h)), f2b(0.5)))
+                elif kind == 'add-tanh':
+                    h = p.bind('scale %s %s' % (p.bind('add %s %s' % (h, p.bind('tanh %s' % h))), f2b(0.5)))
+                elif kind == 'mul-self':
+                    h = p.bind('mul %s %s' % (h, h))                     # values shrink quadratically towards 0
+                elif kind == 'sub-scale':
+                    h = p.bind('sub %s %s' % (p.bind('scale %s %s' % (h, f2b(1.5))), p.bind('scale %s %s' % (h, f2b(0.5)))))
+                else:
+                    c = p.bind('concat %s,%s 0' % (h, p.bind('scale %s %s' % (h, f2b(0.5)))))
+                    h = p.bind('add %s %s' % (p.bind('slice %s 0:2' % c), p.bind('slice %s 2:4' % c)))
+                    h = p.bind('scale %s %s' % (h, f2b(2.0 / 3.0)))
+            p.add('bp %s' % h)
+            p.add('obs %s' % x0); p.add('obs %s' % h)
+            p.tag('deep-shared-chain', 'deep:' + kind, 'depth%d' % depth)
+            progs.append(p)
     return progs
